@@ -11,7 +11,8 @@ RULE = ('cases: connected graphs with >=1 edge: paths, stars, cycles, fused ring
         'relabelled copy (integer keys -> string keys or shifted integers, annotations relabelled too); optionally '
         'align_with; numpy seed drawn. Oracle: set(pos) == set(G), every position a finite ndarray of shape (2,), no two bonded '
         'nodes coincide (distance > 1e-9 x bond), |mean bond length - default_bond| <= 1e-7 x default_bond, for '
-        'the graph and for its relabelled copy. non-trivial = >=3 nodes and a ring or a branch; distinct = graph + '
+        'the graph and for its relabelled copy; half of the resolved molecules are also laid out through '
+        'draw_molecule(layout_method=vespr) twice in one process with two different bond lengths. non-trivial = >=3 nodes and a ring or a branch; distinct = graph + '
         'bond length')
 ASSUMPTIONS = ['layout quality is not asserted, only the stated postconditions',
                'the numpy global RNG is seeded by the harness before every layout call']
@@ -69,8 +70,9 @@ def gen(R, tier):
     if R.chance(0.3):
         # documented option: rotate the layout so that its longest axis is aligned with a vector
         spec['align_with'] = R.choice([[1, 0], [0, 1], [1, 1], [-1, 2]])
-    return dict(input=spec, bond=round(R.choice([R.uniform(0.1, 1.0), 1.0, R.uniform(1.0, 10.0)]), 4),
-                np_seed=R.randint(0, 2 ** 31 - 1), features=['kind:' + kind, 'relabel:' + spec['relabel']] + (['edge_orders_incl_0'] if spec.get('orders') else []) + (['align_with'] if spec.get('align_with') else []) + (['nodes>=50'] if spec.get('n', 0) >= 50 else []))
+    draw = round(R.uniform(0.3, 5.0), 3) if ('string' in spec and R.chance(0.5)) else None   # drawing needs elements
+    return dict(draw=draw, input=spec, bond=round(R.choice([R.uniform(0.1, 1.0), 1.0, R.uniform(1.0, 10.0)]), 4),
+                np_seed=R.randint(0, 2 ** 31 - 1), features=['kind:' + kind, 'relabel:' + spec['relabel']] + (['edge_orders_incl_0'] if spec.get('orders') else []) + (['align_with'] if spec.get('align_with') else []) + (['nodes>=50'] if spec.get('n', 0) >= 50 else []) + (['through_draw_molecule'] if draw else []))
 
 
 def build(spec):
@@ -143,3 +145,17 @@ def oracle(case):
     np.random.seed(case['np_seed'])
     pos2 = sut(vespr_layout, h, default_bond=case['bond'], **kw)
     check_layout(h, pos2, case['bond'], 'relabelled (%s)' % case['input']['relabel'])
+    if case.get('draw'):
+        # the drawing entry point (layout_method='vespr'): twice in one process with different bond lengths
+        import matplotlib
+        matplotlib.use('Agg')
+        import matplotlib.pyplot as plt
+        from cgsmiles.drawing import draw_molecule
+        for bond in (case['bond'], case['draw']):
+            fig, ax = plt.subplots()
+            try:
+                np.random.seed(case['np_seed'])
+                _, pos3 = sut(draw_molecule, g, ax=ax, layout_method='vespr', cg_mapping=False, default_bond=bond)
+            finally:
+                plt.close(fig)
+            check_layout(g, pos3, bond, 'draw_molecule(default_bond=%r)' % bond)
